@@ -8,6 +8,12 @@ def get(name):
     if name == "C03":
         from .engine_curve import CurveEngineC03
         e = CurveEngineC03()
+    elif name == "C06":
+        from .engine_curve import CurveEngineC06
+        e = CurveEngineC06()
+    elif name == "C09":
+        from .engine_curve import CurveEngineC09
+        e = CurveEngineC09()
     else:
         raise KeyError(name)
     _cache[name] = e
